@@ -144,6 +144,139 @@ fn classfield_leg(ctx: &mut Ctx, tier: Tier, seed: u64) {
     }
 }
 
+
+// ---------------------------------------------------------------------------------------
+// COMPONENTS OF (X.680 25.5): the including type takes the *root* components of the type it
+// names and nothing else - not its extension marker, not its additions. The including type is
+// extensible exactly when it has a marker of its own (or the module says IMPLIED).
+
+#[derive(Clone, Debug, serde::Serialize, serde::Deserialize)]
+struct CofCase {
+    set: bool,
+    /// base: 0 no marker, 1 marker last, 2 marker + one addition, 3 marker + addition + group (SEQUENCE) / two additions
+    base: usize,
+    own_marker: bool,
+    implied: bool,
+    /// COMPONENTS OF first (own component behind it) or last
+    first: bool,
+    /// the including type is an inline component of another type
+    nested: bool,
+    /// the including type sorts before the type it names
+    before: bool,
+}
+
+fn cof_text(c: &CofCase) -> String {
+    let kw = if c.set { "SET" } else { "SEQUENCE" };
+    let base = match (c.base, c.set) {
+        (0, _) => "r1 INTEGER, r2 BOOLEAN OPTIONAL",
+        (1, _) => "r1 INTEGER, r2 BOOLEAN OPTIONAL, ...",
+        (2, _) => "r1 INTEGER, r2 BOOLEAN OPTIONAL, ..., a1 NULL OPTIONAL",
+        (_, false) => "r1 INTEGER, r2 BOOLEAN OPTIONAL, ..., a1 NULL OPTIONAL, [[ g1 BOOLEAN, g2 NULL OPTIONAL ]]",
+        (_, true) => "r1 INTEGER, r2 BOOLEAN OPTIONAL, ..., a1 NULL OPTIONAL, a2 OCTET STRING OPTIONAL",
+    };
+    let marker = if c.own_marker { ", ..." } else { "" };
+    let body = if c.first { format!("COMPONENTS OF Mm-Base, extra BOOLEAN{marker}") } else { format!("extra BOOLEAN, COMPONENTS OF Mm-Base{marker}") };
+    let name = if c.before { "Aa-Derived" } else { "Zz-Derived" };
+    let derived = if c.nested { format!("{name} ::= SEQUENCE {{ lead NULL, inner {kw} {{ {body} }} }}") } else { format!("{name} ::= {kw} {{ {body} }}") };
+    format!("Cof-Mod DEFINITIONS AUTOMATIC TAGS{} ::= BEGIN\nMm-Base ::= {kw} {{ {base} }}\n{derived}\nEND\n", if c.implied { " EXTENSIBILITY IMPLIED" } else { "" })
+}
+
+fn cof_eval(c: &CofCase) -> Result<Option<String>, String> {
+    use crate::comp::{self, Cfg, Outcome};
+    let text = cof_text(c);
+    let out = match comp::compile_rasn1(&text, &Cfg::default()) {
+        Outcome::Ok(o) if o.warnings.is_empty() => o,
+        Outcome::Ok(o) => return Err(format!("warnings: {}", o.warnings[0])),
+        Outcome::Err(e) => return Err(e),
+        Outcome::Panic(p) => return Err(format!("panic: {p}")),
+    };
+    let mods = crate::proj::project(&out.generated)?;
+    let m = mods.first().ok_or("no module")?;
+    let top = if c.before { "AaDerived" } else { "ZzDerived" };
+    let sname = if c.nested { format!("{top}Inner") } else { top.to_string() };
+    let Some(d) = m.find_struct(&sname) else { return Err(format!("{sname} not generated")) };
+    let want_ext = c.own_marker || c.implied;
+    if d.attrs.non_exhaustive != want_ext {
+        return Ok(Some(format!("rasn: the including type has #[non_exhaustive] = {}, its notation has {} extension marker{}", d.attrs.non_exhaustive, if c.own_marker { "an" } else { "no" }, if c.implied { " (EXTENSIBILITY IMPLIED)" } else { "" })));
+    }
+    let mut names: Vec<&str> = d.fields.iter().map(|f| f.name.as_str()).collect();
+    names.sort();
+    if names != ["extra", "r1", "r2"] {
+        return Ok(Some(format!("rasn: the including type has the members {names:?}; its own component and the root components of the named type are extra, r1, r2")));
+    }
+    for f in &d.fields {
+        if f.attrs.flags.contains("extension_addition") || f.attrs.flags.contains("extension_addition_group") {
+            return Ok(Some(format!("rasn: member {} of the including type is marked as an extension addition; every member stands in front of the marker", f.name)));
+        }
+    }
+    // the TypeScript backend (EXTENSIBILITY IMPLIED is its listed finding F-ts-ext-implied: not judged there)
+    if !c.implied {
+        let ts = match comp::compile_ts(&[text.clone()]) {
+            Outcome::Ok(o) => o,
+            _ => return Err("typescript: rejected".into()),
+        };
+        let nss = crate::tsparse::parse(&ts.generated)?;
+        let ns = nss.first().ok_or("no namespace")?;
+        let dm = crate::tsparse::decl_map(ns);
+        let ts_top = if c.before { "Aa_Derived" } else { "Zz_Derived" };
+        let Some(decl) = dm.get(ts_top).and_then(|v| v.first()) else { return Err(format!("typescript: {ts_top} not declared")) };
+        let crate::tsparse::Decl::Type(mut t) = (*decl).clone() else { return Err("typescript: not a type".into()) };
+        if c.nested {
+            let crate::tsparse::TsType::Object { members, .. } = &t else { return Err("typescript: not an object".into()) };
+            let Some((_, _, inner)) = members.iter().find(|(n, _, _)| n == "inner") else { return Err("typescript: no inner".into()) };
+            t = inner.clone();
+        }
+        let crate::tsparse::TsType::Object { members, index_signature } = &t else { return Err("typescript: not an object".into()) };
+        if *index_signature != c.own_marker {
+            return Ok(Some(format!("typescript: the including type has {} index signature, its notation has {} extension marker", if *index_signature { "an" } else { "no" }, if c.own_marker { "an" } else { "no" })));
+        }
+        let mut names: Vec<&str> = members.iter().map(|(n, _, _)| n.as_str()).collect();
+        names.sort();
+        if names != ["extra", "r1", "r2"] {
+            return Ok(Some(format!("typescript: the including type has the members {names:?}; expected extra, r1, r2")));
+        }
+    }
+    Ok(None)
+}
+
+fn compof_leg(ctx: &mut Ctx) {
+    use rayon::prelude::*;
+    let mut cases = vec![];
+    for set in [false, true] {
+        for base in 0..4 {
+            for own_marker in [false, true] {
+                for implied in [false, true] {
+                    for first in [false, true] {
+                        for nested in [false, true] {
+                            for before in [false, true] {
+                                cases.push(CofCase { set, base, own_marker, implied, first, nested, before });
+                            }
+                        }
+                    }
+                }
+            }
+        }
+    }
+    let results: Vec<(CofCase, Result<Option<String>, String>)> = cases.into_par_iter().map(|c| { let r = cof_eval(&c); (c, r) }).collect();
+    let mut reported = 0;
+    for (c, r) in results {
+        match r {
+            Err(e) => ctx.class(&format!("compof:skipped ({})", e.chars().take(36).collect::<String>())),
+            Ok(res) => {
+                ctx.case(&format!("compof:{}", cof_text(&c)), c.base > 0);
+                ctx.class("leg:COMPONENTS-OF-takes-root-components-only");
+                if let Some(d) = res {
+                    ctx.class("fails:compof");
+                    if reported < 3 {
+                        reported += 1;
+                        ctx.fail(crate::ev::Failure { finding: None, what: format!("COMPONENTS OF: {d}"), replay: serde_json::json!({"kind": "c05-compof", "case": c, "sources": [{"name": "cof.asn", "text": cof_text(&c)}], "observed": d}) });
+                    }
+                }
+            }
+        }
+    }
+}
+
 pub fn run(tier: Tier, seed: u64, replay: Option<String>) -> i32 {
     let mut ctx = Ctx::new("C05", tier, seed);
     ctx.rule = "module sets from the §3 generator with extension markers on ~75% of SEQUENCE/SET/CHOICE/ENUMERATED (marker at any \
@@ -180,6 +313,20 @@ pub fn run(tier: Tier, seed: u64, replay: Option<String>) -> i32 {
     };
     if let Some(p) = &replay {
         let v: serde_json::Value = serde_json::from_str(&std::fs::read_to_string(p).unwrap_or_default()).unwrap_or_default();
+        if v["kind"] == "c05-compof" {
+            if let Ok(c) = serde_json::from_value::<CofCase>(v["case"].clone()) {
+                match cof_eval(&c) {
+                    Err(e) => ctx.inconclusive.push(e),
+                    Ok(res) => {
+                        ctx.case(&cof_text(&c), true);
+                        if let Some(d) = res {
+                            ctx.fail(crate::ev::Failure { finding: None, what: format!("COMPONENTS OF: {d}"), replay: v.clone() });
+                        }
+                    }
+                }
+            }
+            return ctx.finish();
+        }
         if v["kind"] == "c05-classfield" {
             if let Ok(c) = serde_json::from_value::<ClsCase>(v["case"].clone()) {
                 match cls_eval(&c) {
@@ -202,5 +349,6 @@ pub fn run(tier: Tier, seed: u64, replay: Option<String>) -> i32 {
     }
     run_generic(&mut ctx, &run, "c05");
     classfield_leg(&mut ctx, tier, seed);
+    compof_leg(&mut ctx);
     ctx.finish()
 }
